@@ -59,6 +59,17 @@ func checkC06(w *World, r *Result) {
 	if _, n := constExactRule(w, r, func(rel string) bool { return rel == "generator/dart" || rel == "generator" }); n < 1 {
 		Undecided("CONST-EXACT: fewer enum value renderings than confirmed by hand")
 	}
+	// the assembly keeps one declaration per ID (rule shared with C19): two declarations of one ID written twice are a
+	// redeclaration in the generated file
+	{
+		sub := &Result{Prop: "C19"}
+		checkC19(w, sub)
+		for _, o := range sub.Obs {
+			if o.Rule == "PTH-C19a" {
+				r.add(o)
+			}
+		}
+	}
 	genIDAccumulation(w, r)
 	if genIDRule(w, r, "generator/dart") < 3 {
 		Undecided("GEN-ID: fewer naming sites than confirmed by hand in generator/dart")
